@@ -193,6 +193,15 @@ func runJob(j job, dir string) result {
 		res.Err = fmt.Sprintf("child produced no result: %v: %s", err, tail(string(out), 600))
 	}
 	logs, _ := filepath.Glob(logp + ".*")
+	if strings.Contains(res.Outcome, "returned=false") {
+		// the free-running execution hit the 20 s tool guard: the abandoned goroutines keep running while the harness
+		// reads its observations, so any race report of this run is an artefact; the run is inconclusive
+		for _, lf := range logs {
+			os.Remove(lf)
+		}
+		res.Err = "free-running execution did not finish within the tool guard"
+		return res
+	}
 	for _, lf := range logs {
 		b, _ := os.ReadFile(lf)
 		fps, blocks, h := parseRaces(string(b))
